@@ -59,6 +59,15 @@ def plan(tier, seed):
                 out.append({"slice": "plain:P4x3", "family": "plain", "osh": osh, "ssh": ssh, "costs": v3 + [(0, 1, 6, 1, 1)],
                             "part": (i, k)})
         out += L.split_plan("ordered:O3x2x2", spaces.shape_pairs(3, 2), o2, 25, {"family": "ordered", "costs": v3[:2]})
+        # full and segmental losses at different prices: cost-response transformations on 3 objects x 3 species, 2 families
+        out += L.split_plan("ordered:O3x3x2/uneven-losses", spaces.shape_pairs(3, 3, min_obj=3, min_sp=3), o2, 25,
+                            {"family": "ordered", "costs": [(0, 3, 1, 1, 2), (0, 1, 1, 2, 1)], "kinds": ["mono", "scale"]})
+        # ... and the 4-leaf comb on the 3-leaf species comb over {a, c, bc, abc}, every species used: raising the full-loss
+        # price must not lower the minimum (extended ordered solver)
+        out += L.split_plan("ordered:O4combx3combx{a,c,bc,abc}/raise-floss", [((((None, None), None), None), ((None, None), None))],
+                            [("a",), ("c",), ("b", "c"), ("a", "b", "c")], 80,
+                            {"family": "ordered", "costs": [(0, 3, 1, 1, 2)], "names": ["raise_floss"], "algos": ["ext_spfs"],
+                             "surjective": True})
         out += L.split_plan("unordered:U3x2x2", spaces.shape_pairs(3, 2), u2, 25, {"family": "unordered", "costs": v3[:2]})
         out += L.split_plan("unordered:U3x1x3", spaces.shape_pairs(3, 1), u3, 25, {"family": "unordered", "costs": v3[:1]})
         # 4-leaf chains on one species, 3 families: cost-response transformations only (scaling x2 / x3, each unit cost + 1)
@@ -113,7 +122,7 @@ def plan(tier, seed):
                         [(o, s_) for o in spaces.chain_shapes(4) for s_ in spaces.binary_shapes(3)], u2, 15,
                         {"family": "unordered", "costs": v5[:1], "kinds": ["same", "twice", "after", "inplace"]})
     # the quick slices that the larger ones above do not subsume
-    keep = ("unordered:U5chainx1x{a,c,d,bd,abcd}/child-order", "unordered:U4chainx1x3/costs", "unordered:U3x4x1", "ordered:O3x4x1", "ordered:O4x2x2/child-order",
+    keep = ("ordered:O4combx3combx{a,c,bc,abc}/raise-floss", "ordered:O3x3x2/uneven-losses", "unordered:U5chainx1x{a,c,d,bd,abcd}/child-order", "unordered:U4chainx1x3/costs", "unordered:U3x4x1", "ordered:O3x4x1", "ordered:O4x2x2/child-order",
             "unordered:U4x2x2/child-order", "ordered:O3x2x2/dict-form", "unordered:U3x2x2/dict-form", "plain:P3x3/dict-form")
     out = [sh for sh in plan("quick", seed) if sh["slice"] in keep] + out      # cheap ones first
     out.insert(0, {"slice": "determinism", "family": "det", "tier": "thorough"})
@@ -510,6 +519,8 @@ def run_shard(shard, tier, seed):
         algos = tuple(shard["algos"])
     for leafmap, leafsyn in gen:
         if fam == "ordered" and not ordered.root_orders(leafsyn):
+            continue
+        if shard.get("surjective") and len(set(leafmap.values())) < len(S.leaves):
             continue
         n_inputs += 1
         for costs in shard["costs"]:
